@@ -25,6 +25,7 @@ type Engine struct {
 	sentinelMemo map[string]bool
 	inlineMemo   map[string]bool
 	freshMemo    map[string]bool
+	standaloneMemo map[string]bool
 	globals      map[*ssa.Global]*globalInfo
 	CheckOverflow bool
 
@@ -411,12 +412,19 @@ func (c *Ctx) typeFacts(term string, t types.Type, alloc string) string {
 		if pt, isPtr := u.(*types.Pointer); isPtr && c.tid != nil {
 			// a *T that addresses a whole object addresses an object allocated as a T
 			ot := fmt.Sprintf("(<= (objtype (pobj %s)) 0)", term)
+			standalone := false
 			if nt, ok := pt.Elem().(*types.Named); ok {
 				if _, isStruct := nt.Underlying().(*types.Struct); isStruct {
 					ot = fmt.Sprintf("(= (objtype (pobj %s)) %d)", term, c.tid(nt))
+					standalone = c.standalone != nil && c.standalone(nt)
 				}
 			}
-			kind = fmt.Sprintf("(and %s (=> (= (ppath %s) here) %s))", kind, term, ot)
+			if standalone {
+				// values of this (unexported) type are never part of another object: a *T is a whole T
+				kind = fmt.Sprintf("(and %s (= (ppath %s) here) %s)", kind, term, ot)
+			} else {
+				kind = fmt.Sprintf("(and %s (=> (= (ppath %s) here) %s))", kind, term, ot)
+			}
 		}
 		if alloc == "" {
 			return fmt.Sprintf("(or (= %s nil) %s)", term, kind)
@@ -439,4 +447,137 @@ func (c *Ctx) typeFacts(term string, t types.Type, alloc string) string {
 		return And(fs...)
 	}
 	return "true"
+}
+
+// standaloneType: values of the named struct type nt are only ever allocated as whole objects:
+// nowhere in the packages that can mention it is it the type of a struct field, an array, slice,
+// map or channel element (so a non-nil *nt always addresses a whole object allocated as an nt).
+// Unexported types are checked in their own package, exported ones in all loaded bifrost packages.
+func (e *Engine) standaloneType(nt *types.Named) bool {
+	key := types.TypeString(nt, nil)
+	if v, ok := e.standaloneMemo[key]; ok {
+		return v
+	}
+	if e.standaloneMemo == nil {
+		e.standaloneMemo = map[string]bool{}
+	}
+	e.standaloneMemo[key] = false // cycles: conservative
+	if nt.Obj().Pkg() == nil || nt.TypeArgs() != nil || nt.Obj().Exported() {
+		// exported types may be embedded by packages that are not loaded: not decided
+		return false
+	}
+	if _, isStruct := nt.Underlying().(*types.Struct); !isStruct {
+		return false
+	}
+	var containsByValue func(t types.Type, depth int) bool
+	containsByValue = func(t types.Type, depth int) bool {
+		if depth > 6 {
+			return true
+		}
+		switch u := t.(type) {
+		case *types.Named:
+			if types.Identical(u, nt) {
+				return true
+			}
+			return false // other named types are examined on their own
+		case *types.Alias:
+			return containsByValue(types.Unalias(u), depth+1)
+		case *types.Struct:
+			for i := 0; i < u.NumFields(); i++ {
+				if containsByValue(u.Field(i).Type(), depth+1) {
+					return true
+				}
+			}
+		case *types.Array:
+			return containsByValue(u.Elem(), depth+1)
+		case *types.Slice:
+			return containsByValue(u.Elem(), depth+1)
+		case *types.Map:
+			return containsByValue(u.Elem(), depth+1) || containsByValue(u.Key(), depth+1)
+		case *types.Chan:
+			return containsByValue(u.Elem(), depth+1)
+		}
+		return false
+	}
+	// aggregateHolds: t is an aggregate (not nt itself) that holds an nt by value
+	aggregateHolds := func(t types.Type) bool {
+		if n, ok := t.(*types.Named); ok {
+			if types.Identical(n, nt) {
+				return false
+			}
+			return containsByValue(n.Underlying(), 0)
+		}
+		return containsByValue(t, 0)
+	}
+	ok := true
+	for _, p := range e.Prog.SSA.AllPackages() {
+		if p.Pkg == nil {
+			continue
+		}
+		if !nt.Obj().Exported() && p.Pkg != nt.Obj().Pkg() {
+			continue
+		}
+		if nt.Obj().Exported() && !strings.HasPrefix(p.Pkg.Path(), "github.com/aperturerobotics/bifrost") {
+			continue
+		}
+		sc := p.Pkg.Scope()
+		for _, name := range sc.Names() {
+			if tn, isTN := sc.Lookup(name).(*types.TypeName); isTN {
+				if aggregateHolds(tn.Type()) {
+					ok = false
+				}
+			}
+		}
+		for _, m := range p.Members {
+			fn, isFn := m.(*ssa.Function)
+			if !isFn {
+				continue
+			}
+			var visit func(fn *ssa.Function)
+			visit = func(fn *ssa.Function) {
+				for _, b := range fn.Blocks {
+					for _, in := range b.Instrs {
+						switch x := in.(type) {
+						case *ssa.Alloc:
+							if aggregateHolds(x.Type().Underlying().(*types.Pointer).Elem()) {
+								ok = false
+							}
+						case *ssa.MakeSlice, *ssa.MakeMap, *ssa.MakeChan:
+							if aggregateHolds(x.(ssa.Value).Type()) {
+								ok = false
+							}
+						}
+					}
+				}
+				for _, an := range fn.AnonFuncs {
+					visit(an)
+				}
+			}
+			visit(fn)
+		}
+		// methods of the package's named types
+		for _, name := range sc.Names() {
+			if tn, isTN := sc.Lookup(name).(*types.TypeName); isTN {
+				for _, recv := range []types.Type{tn.Type(), types.NewPointer(tn.Type())} {
+					ms := e.Prog.SSA.MethodSets.MethodSet(recv)
+					for i := 0; i < ms.Len(); i++ {
+						if fn := e.Prog.SSA.MethodValue(ms.At(i)); fn != nil && fn.Pkg == p {
+							for _, b := range fn.Blocks {
+								for _, in := range b.Instrs {
+									if a, isA := in.(*ssa.Alloc); isA && aggregateHolds(a.Type().Underlying().(*types.Pointer).Elem()) {
+										ok = false
+									}
+									if ms2, isM := in.(*ssa.MakeSlice); isM && aggregateHolds(ms2.Type()) {
+										ok = false
+									}
+								}
+							}
+						}
+					}
+				}
+			}
+		}
+	}
+	e.standaloneMemo[key] = ok
+	return ok
 }
